@@ -207,6 +207,13 @@ func (s *clientSocket) registerSubEvents() {
 			if !s.Active() {
 				return
 			}
+			// The connection can end while the manager is still setting it up, and the handlers
+			// of its open event run afterwards. A CONNECT packet would go nowhere, and it would count
+			// as sent with the next connection (no connection has ended since): the socket would
+			// never connect. The open event of the next connection takes care of it.
+			if !s.manager.connected() {
+				return
+			}
 			s.state = clientSocketConnStateConnectPending
 			s.closeReported = false
 			s.connectSentEpoch = epoch
